@@ -260,6 +260,27 @@ fn cut(rep: &mut Report, v: &Value) {
         });
         judge_cut(rep, &site, &key, "f64 values, f64 labels", r, call_ok, &s, &exp, |x: &f64| if x.is_nan() { -2 } else { *x as i64 - 100 }, v);
     }
+    // a label series that holds a null itself (first / last label): values of that bin get the null
+    // label, which is a result - an error is for values outside all intervals only
+    if nl >= 1 {
+        for (field, nulllab) in [("exp_null_first", 0usize), ("exp_null_last", nl - 1)] {
+            let expn = get_ints(v, field);
+            let vals: Vec<f64> = s.iter().map(|x| enc_f(*x)).collect();
+            let b: Vec<f64> = bins.iter().map(|x| *x as f64).collect();
+            let labels: Vec<f64> = (0..nl).map(|i| if i == nulllab { f64::NAN } else { 100.0 + i as f64 }).collect();
+            let r = catch(|| {
+                vals.titer().vcut(&b, &labels, right, bounds).map(|it| it.map(|x| x.map_err(|e| e.to_string())).collect::<Vec<Result<f64, String>>>())
+            });
+            judge_cut(rep, &site, &format!("{key},null label {nulllab}"), "f64 values, f64 labels (one null)", r, call_ok, &s, &expn,
+                |x: &f64| if x.is_nan() { -2 } else { *x as i64 - 100 }, v);
+            let labels: Vec<Option<i32>> = (0..nl).map(|i| if i == nulllab { None } else { Some(100 + i as i32) }).collect();
+            let r = catch(|| {
+                vals.titer().vcut(&b, &labels, right, bounds).map(|it| it.map(|x| x.map_err(|e| e.to_string())).collect::<Vec<Result<Option<i32>, String>>>())
+            });
+            judge_cut(rep, &site, &format!("{key},null label {nulllab}"), "f64 values, Option<i32> labels (one null)", r, call_ok, &s, &expn,
+                |x: &Option<i32>| x.map(|y| y as i64 - 100).unwrap_or(-2), v);
+        }
+    }
     // element type i32 with Option<i32> labels (null label = None); no null values in an i32 series
     {
         let idx: Vec<usize> = (0..s.len()).filter(|i| s[*i] != NULL).collect();
